@@ -39,7 +39,7 @@ import (
 // ---------------------------------------------------------------- plan
 
 type Plan struct {
-	Op         string `json:"op"` // load, loadfor (D ms), sleep (D ms), shiftsecret, shiftpeercookie, shifths, tun, msg
+	Op         string `json:"op"` // load, loadfor (D ms), sleep (D ms), setkey (D=0 remove, 1 restore), shiftsecret, shiftpeercookie, shifths, tun, msg
 	On         bool   `json:"on,omitempty"`
 	D          int    `json:"d,omitempty"`    // seconds
 	Peer       int    `json:"peer,omitempty"` // 0,1,2 = configured peers; 9 = stranger
@@ -155,6 +155,7 @@ type run struct {
 	devfp     string
 	nonce     int
 	loadOn    bool
+	idNum     int // key number of the device's current static key: 1 = the configured one, 8 = the all-zero private key
 	confirmed map[*ref.Session]bool
 }
 
@@ -192,7 +193,7 @@ func newRun() (*run, error) {
 	r := &run{ipid: map[netip.Addr]int{}, bodies: map[string]int{}, cookies: map[int][]gotCookie{},
 		devInit: map[int]*devMsg{}, devMsgs: map[int][]devMsg{}, maxTs: map[int]uint64{}, consumed: map[int][]*refInit{},
 		pending: map[int]*refInit{}, lastResp: map[int][]byte{}, lastHid: map[int]int{}, ctr: map[int]uint64{},
-		lastTr: map[int][]byte{}, lim: map[int]int{}, confirmed: map[*ref.Session]bool{}}
+		lastTr: map[int][]byte{}, lim: map[int]int{}, idNum: 1, confirmed: map[*ref.Session]bool{}}
 	for _, a := range addrTable {
 		ap := netip.MustParseAddrPort(a)
 		r.addrs = append(r.addrs, ap)
@@ -317,6 +318,12 @@ func (r *run) withMacs(pl Plan, body []byte, sender *cosim.RefPeer) built {
 	case "junk":
 		m1 = junk16()
 		b.m1k, b.m1b = 0, 1000+orig
+	case "zerokey":
+		// MAC1 for the public key that belongs to the all-zero private key (the identity after key removal)
+		zp := ref.PubOf(ref.Key{})
+		k := ref.Hash([]byte(ref.LabelMAC1), zp[:])
+		m1 = ref.Mac(k[:], body)
+		b.m1k = 8
 	case "otherkey":
 		k := ref.Hash([]byte(ref.LabelMAC1), sender.Pub[:])
 		m1 = ref.Mac(k[:], body)
@@ -402,7 +409,8 @@ func (r *run) buildInit(pl Plan) built {
 	}
 	b := r.withMacs(pl, body, p)
 	who := "None"
-	if pi != 9 && content != "corrupt" && pl.Mac1 != "stale" {
+	if pi != 9 && content != "corrupt" && pl.Mac1 != "stale" && r.idNum == 1 {
+		// (built for the device's configured identity: with another or no identity the static does not even decrypt)
 		who = fmt.Sprintf("(Some %d)", keyNum(pi))
 	}
 	fresh := ts > r.maxTs[pi]
@@ -707,7 +715,11 @@ func (r *run) describe(sent []sim.Sent, off *offender, bodyOracle *int, hidOracl
 			opens, wrongFail := false, true
 			epoch, cip, cport := 0, 0, 0
 			if off != nil {
-				_, c, err := ref.OpenCookieReply(d, r.w.DevPub, off.mac1)
+				idPub := r.w.DevPub
+				if r.idNum != 1 {
+					idPub = ref.PubOf(ref.Key{}) // the device's identity is the all-zero key at the moment
+				}
+				_, c, err := ref.OpenCookieReply(d, idPub, off.mac1)
 				if err == nil {
 					opens = true
 					r.noteSecret()
@@ -727,7 +739,7 @@ func (r *run) describe(sent []sim.Sent, off *offender, bodyOracle *int, hidOracl
 				}
 				bad := off.mac1
 				bad[3] ^= 0x10
-				if _, _, err := ref.OpenCookieReply(d, r.w.DevPub, bad); err == nil {
+				if _, _, err := ref.OpenCookieReply(d, idPub, bad); err == nil {
 					wrongFail = false
 				}
 			}
@@ -796,6 +808,28 @@ func (r *run) exec(pl Plan) (rec StepRec, settled bool) {
 		out := r.w.Take()
 		obs, txt, chg := r.observe(out, nil, &body, &hid)
 		rec.Event = fmt.Sprintf("FL %d %d %v", t, int64(600e9), pl.On)
+		rec.Obs, rec.Outs, rec.Chg, settled = obs, txt, chg, out.Settled
+	case "setkey":
+		// UAPI private_key=: D = 0 removes the identity (all-zero key), D = 1 restores the configured one
+		t := r.now()
+		key := ref.Key{}
+		r.idNum = 8
+		if pl.D == 1 {
+			key = r.w.DevPriv
+			r.idNum = 1
+		}
+		if err := r.w.Dev.IpcSet(fmt.Sprintf("private_key=%s\n", hex.EncodeToString(key[:]))); err != nil {
+			panic(err)
+		}
+		out := r.w.Take()
+		// what the key change itself does to the peers (handshake cleared, send counters pushed to the limit) is not
+		// the subject here: the fingerprints are taken afresh
+		for i := range r.peers {
+			r.fp[i] = r.peerFP(i)
+		}
+		r.devfp = r.deviceFP()
+		obs, txt, chg := r.observe(out, nil, &body, &hid)
+		rec.Event = fmt.Sprintf("SK %d %d", t, r.idNum)
 		rec.Obs, rec.Outs, rec.Chg, settled = obs, txt, chg, out.Settled
 	case "loadfor":
 		// VerifForceUnderLoad for D milliseconds
@@ -1033,6 +1067,44 @@ func genReserved(r *mrand.Rand) []Plan {
 	}
 	// the genuine articles still work
 	p = append(p, Plan{Op: "load", On: false}, msg("resp", other, other, "ok", "zero", "good"), msg("transport", pi, pi, "", "", "good"))
+	return p
+}
+
+// the device's identity is removed (private_key=0...0) and later restored: while it is gone, handshake messages
+// with MAC1 for the PREVIOUS key are strangers' datagrams in every load state; MAC1 for the zero key's public key
+// passes the first gate (cookie reply under load, silence otherwise: nobody can authenticate to a device without key)
+func genIdentity(r *mrand.Rand) []Plan {
+	pi := r.Intn(3)
+	var p []Plan
+	if r.Intn(2) == 0 {
+		p = append(p, msg("init", pi, pi, "ok", "zero", "good"))
+	}
+	if r.Intn(3) == 0 {
+		p = append(p, Plan{Op: "load", On: true}, msg("init", pi, 4, "ok", "zero", "good")) // a cookie of the old identity
+	}
+	p = append(p, Plan{Op: "setkey", D: 0})
+	p = append(p, Plan{Op: "load", On: r.Intn(3) != 0})
+	n := 3 + r.Intn(5)
+	for i := 0; i < n; i++ {
+		from := r.Intn(len(addrTable))
+		switch r.Intn(7) {
+		case 0, 1:
+			p = append(p, msg("init", pi, from, "ok", []string{"zero", "junk", "cookie"}[r.Intn(3)], []string{"good", "resend"}[r.Intn(2)]))
+		case 2:
+			p = append(p, msg("resp", pi, from, "ok", "zero", "good"))
+		case 3:
+			p = append(p, msg("init", pi, from, "zerokey", []string{"zero", "cookie"}[r.Intn(2)], "good"))
+		case 4:
+			p = append(p, msg("resp", pi, from, "zerokey", "zero", "good"))
+		case 5:
+			p = append(p, Plan{Op: "load", On: r.Intn(2) == 0})
+		case 6:
+			p = append(p, msg("transport", pi, from, "", "", []string{"good", "badtag"}[r.Intn(2)]))
+		}
+	}
+	// the identity comes back: MAC1 for it counts again, a handshake works again
+	p = append(p, Plan{Op: "setkey", D: 1}, msg("init", pi, r.Intn(len(addrTable)), "zerokey", "zero", "good"))
+	p = append(p, Plan{Op: "load", On: false}, Plan{Op: "shifths", Peer: pi, D: 1}, msg("init", pi, pi, "ok", "zero", "good"))
 	return p
 }
 
@@ -1836,7 +1908,7 @@ func main() {
 			name string
 			f    func(*mrand.Rand) []Plan
 			w    int
-		}{{"stranger", genStranger, 3}, {"reserved-bytes", genReserved, 3}, {"noload-authfail", genNoLoadAuthFail, 2}, {"roundtrip", genRoundTrip, 5},
+		}{{"stranger", genStranger, 3}, {"reserved-bytes", genReserved, 3}, {"identity", genIdentity, 3}, {"noload-authfail", genNoLoadAuthFail, 2}, {"roundtrip", genRoundTrip, 5},
 			{"load-response", genLoadResponse, 2}, {"device-gets-cookie", genDeviceGetsCookie, 3}, {"ratelimit", genRateLimit, 1}, {"mix", genMix, 4}}
 		tot := 0
 		for _, g := range gens {
